@@ -70,7 +70,8 @@ def expm_krylov(Afunc, dt, vstart: xp.ndarray, block_size=50):
             alpha = np.concatenate([alpha, np.zeros(block_size)])
             beta = np.concatenate([beta, np.zeros(block_size)])
 
-        w -= alpha[j]*V[j] + (beta[j-1]*V[j-1] if j > 0 else 0)
+        # not in place: `Afunc` may return its argument (or a view of it), i.e. a row of `V`
+        w = w - (alpha[j]*V[j] + (beta[j-1]*V[j-1] if j > 0 else 0))
         beta[j] = xp.linalg.norm(w)
         if beta[j] < 100*len(vstart)*np.finfo(float).eps:
             # logger.warning(f'beta[{j}] ~= 0 encountered during Lanczos iteration.')
